@@ -353,8 +353,7 @@ fn check_policies(set: &str, idx: u64, p: &Policies, acc: &mut Acc) {
         });
         return
     }
-    let name = format!("Policies:mask={:#04x}", p.bits());
-    check_value(p, &name, txcorpus::spec_len_policies(p), &plain_eq, None, None, &case, acc);
+    check_value(p, "Policies", txcorpus::spec_len_policies(p), &plain_eq, None, None, &case, acc);
 }
 
 fn tx_shape_fp(point: &txcorpus::TxPoint, len: usize) -> u64 {
@@ -489,21 +488,20 @@ fn explore(ctx: &Ctx) {
         );
     }
     // information: how many star transactions are format-valid (none is claimed to be)
-    let valid = (0..star_n)
-        .filter(|i| {
-            let tx = txcorpus::tx_at(CorpusLevel::Star, *i);
-            matches!(
-                guard::catch_any(|| tx.check_without_signatures(0u32.into(), &fuel_tx::ConsensusParameters::standard())),
-                Ok(Ok(()))
-            )
-        })
-        .count();
+    let mut valid: BTreeMap<String, u64> = BTreeMap::new();
+    for i in 0..star_n {
+        let tx = txcorpus::tx_at(CorpusLevel::Star, i);
+        let ok = guard::catch_any(|| tx.check_without_signatures(0u32.into(), &fuel_tx::ConsensusParameters::standard()));
+        if matches!(ok, Ok(Ok(()))) {
+            *valid.entry(txcorpus::tx_point(CorpusLevel::Star, i).kind_name().to_string()).or_insert(0) += 1;
+        }
+    }
     ctx.set(
         "tx_star",
         json!({"count": star_n, "kinds": txcorpus::TX_KINDS, "plus": "Mint", "dims": txcorpus::DIM_NAMES,
                "dim_sizes_per_kind": (0..6).map(txcorpus::tx_dims).collect::<Vec<_>>(),
                "also_with_precomputed_metadata": true,
-               "info_pass_check_without_signatures": valid}),
+               "info_pass_check_without_signatures_per_kind": valid}),
     );
     {
         let rich = (0..star_n)
